@@ -83,8 +83,19 @@ def main():
     for p in a.patches:
         items.append((p, open(p).read(), False))
     results = []
+    kf = {}
+    try:
+        for e in json.load(open(os.path.join(VERIF, "known_findings.json")))["findings"]:
+            if e.get("status") == "fixed":
+                kf[e["commit"]] = sorted(set(re.findall(r"C\d\d", e["what"])))
+    except Exception:
+        pass
     for name, text, rev in items:
-        r = test_patch(name, text, checks, a.tier, reverse=rev, seed=a.seed)
+        use = checks
+        if a.reverse_fixes and a.checks == ",".join(ALL):
+            h = name.split(":")[1].split()[0]
+            use = kf.get(h, checks)
+        r = test_patch(name + " [checks %s]" % ",".join(use), text, use, a.tier, reverse=rev, seed=a.seed)
         results.append(r)
         if "error" in r:
             print("%s ERROR %s" % (name, r["error"]))
